@@ -23,7 +23,8 @@ class CheckC04(core.Check):
         "case = batch of fresh sessions (honest handshake, conversion), each with one hostile delivery to a transport read: every "
         "single-bit flip, every truncation length, extensions, reflection to the sender, cross-session messages (same keys other "
         "ephemerals / other keys), cross-direction, and in stateless mode the genuine message under another nonce (n+-1, n xor 2^k for "
-        "all k, boundary and random values); plus the genuine control delivery which must be accepted with the written payload; "
+        "all k, boundary and random values); 700 tag-only messages per cipher / back end / mode each cut short by one and two bytes; model-forged over-long "
+        "messages with a valid tag; transport objects requested before the handshake has finished; plus the genuine control delivery which must be accepted with the written payload; "
         "distinct key = (cipher, backend pair, pattern class, mode, hostile kind, position/len class); non-trivial = the hostile read was reached"
     )
     assumptions = ["the only genuine message for (session, direction, nonce) is the one the peer's write returned; everything else must be refused"]
@@ -51,7 +52,67 @@ class CheckC04(core.Check):
         for ci in CIPHERS:
             for mode in ("tr", "sl"):
                 descs.append(("forge", ci, mode, rnd.getrandbits(24)))
+        # many tag-only messages, each cut short by one or two bytes (a tag that happens to end in zero bytes must not
+        # make its truncation acceptable), and transport objects obtained before the handshake has finished
+        for ci in CIPHERS:
+            for be in ("D", "R"):
+                for mode in ("tr", "sl"):
+                    for _ in range(1 if self.tier == "quick" else 12):
+                        descs.append(("cut", ci, be, mode, rnd.getrandbits(24)))
+        for pat in ("XX", "NN", "IK", "N"):
+            for mode in ("tr", "sl"):
+                descs.append(("early", pat, mode, rnd.getrandbits(24)))
         return descs
+
+    def _build_cut(self, desc):
+        _, ci, be, mode, seed = desc
+        name = "Noise_NN_25519_%s_BLAKE2s" % ci
+        parsed = parse_name_simple(name)
+        c = Case("cut-%s-%s-%s-%d" % (ci, be, mode, seed), desc)
+        rnd = random.Random(seed)
+        keys = sessions.Keys(parsed, seed)
+        sessions.add_pair(c, parsed, keys, res=(be, be), rng=("script:%d" % seed, "script:%d" % (seed + 7)), rec=("-", "-"))
+        sessions.add_handshake(c, parsed, ["-", "-"], flags=("q",))
+        st = mode == "sl"
+        sessions.add_convert(c, stateless=st)
+        wop, rop = ("st_write", "st_read") if st else ("t_write", "t_read")
+        subs = []
+        for j in range(700):
+            kw = {"n": j} if st else {}
+            lw = c.op(wop, "A", pay="-", buf=BIG, out="g", flags=("q",), **kw)
+            for cut in (15, 14) if j % 2 else (15,):
+                lr = c.op(rop, "B", msg="$g~trunc:%d" % cut, buf=rnd.choice([BIG, 0, 16]), flags=("q",), **kw)
+                subs.append((j, lw, lr, "trunc", "~trunc:%d (tag-only message %d)" % (cut, j), 0))
+            c.op(rop, "B", msg="$g", buf=BIG, flags=("q",), **kw)
+        c.meta["subs"] = subs
+        c.info = {"name": name, "key": (ci, be, be, "interactive", mode)}
+        return c
+
+    def _build_early(self, desc):
+        _, pat, mode, seed = desc
+        name = "Noise_%s_25519_ChaChaPoly_SHA256" % pat
+        parsed = parse_name_simple(name)
+        c = Case("early-%s-%s-%d" % (pat, mode, seed), desc)
+        keys = sessions.Keys(parsed, seed)
+        early = []
+        j = 0
+        for upto in range(parsed.nmsgs):
+            for who in (0, 1):
+                for tf in (True, False):
+                    a, b = "A%d" % j, "B%d" % j
+                    j += 1
+                    sessions.add_pair(c, parsed, keys, rng=("script:%d" % seed, "script:%d" % (seed + 7)), rec=("-", "-"), ids=(a, b))
+                    sessions.add_handshake(c, parsed, ["-"] * parsed.nmsgs, ids=(a, b), flags=("q",), upto=upto, prefix="e%d_" % j)
+                    p = (a, b)[who]
+                    lc = c.op("to_stateless" if mode == "sl" else "to_transport", p, flags=("tf",) if tf else ())
+                    kw = {"n": 3} if mode == "sl" else {}
+                    wop, rop = ("st_write", "st_read") if mode == "sl" else ("t_write", "t_read")
+                    lw = c.op(wop, p, pay="gen:9:early", buf=BIG, out="z%d" % j, **kw)
+                    lr = c.op(rop, p, msg="$z%d" % j, buf=BIG, **kw)
+                    early.append((lc, lw, lr, upto, who, tf))
+        c.meta["early"] = early
+        c.info = {"name": name, "key": ("ChaChaPoly", "D", "D", "early", mode)}
+        return c
 
     def _build_forge(self, desc):
         _, ci, mode, seed = desc
@@ -105,6 +166,10 @@ class CheckC04(core.Check):
     def build(self, desc):
         if desc[0] == "forge":
             return self._build_forge(desc)
+        if desc[0] == "cut":
+            return self._build_cut(desc)
+        if desc[0] == "early":
+            return self._build_early(desc)
         name, be0, be1, mode, plen, seed, ch = desc
         parsed = parse_name_simple(name)
         hostile = [("control", "")] + self._hostile(name, mode, plen, seed)[ch:ch + 60]
@@ -222,6 +287,19 @@ class CheckC04(core.Check):
                 else:
                     r.nontrivial = True
                     r.keys.add((ci, mode, "forged", total))
+            return r
+        if "early" in case.meta:
+            for lc, lw, lr, upto, who, tf in case.meta["early"]:
+                ec, ew, er = by.get(str(lc)), by.get(str(lw)), by.get(str(lr))
+                if ec is None or not ec.ok:
+                    r.stats["premature_conversions_refused"] += 1
+                    r.nontrivial = True
+                    r.keys.add((case.info["name"], "early", upto, who, tf))
+                    continue
+                # the conversion itself is C11's matter; what the object then accepts is this property's
+                r.foreign_dev("C11", "conversion to transport mode succeeded after %d of the handshake's messages" % upto)
+                if ew is not None and ew.ok and er is not None and er.ok:
+                    r.viol("C04|accepted|reflect-unfinished|%s" % case.info["key"][4], "%s: a transport object obtained after %d handshake message(s) (%s) reads back its own message: %s" % (case.info["name"], upto, "TryFrom" if tf else "into_*", er.res))
             return r
         for j, lw, lr, kind, arg, plen in case.meta["subs"]:
             ew, er = by.get(str(lw)), by.get(str(lr))
